@@ -70,6 +70,22 @@ func thoroughExtras(c *Ctx, cf commonFlags) []string {
 				}
 			}
 		}
+		if rf := runRefactorings(c.Prop, cf, runtime.NumCPU()); rf != nil {
+			c.Extra["refactorings"] = rf
+			sil, appl := 0, 0
+			for _, r := range rf {
+				if r.Status == "silent-ok" {
+					sil++
+				}
+				if r.Status != "inapplicable" {
+					appl++
+				}
+				if r.Status == "silent-alarm" || r.Status == "error" {
+					fmt.Printf("refactoring %s: %s %s\n", r.Name, r.Status, r.Detail)
+				}
+			}
+			cfgs = append(cfgs, fmt.Sprintf("behaviour-preserving refactorings of this property's functions (refactors/%s-r*): %d of %d applicable are silent", c.Prop, sil, appl))
+		}
 		if sw := runSweep(c, cf, runtime.NumCPU()); sw != nil && sw.Sites > 0 {
 			c.Extra["guard_flip_sweep"] = sw
 			cfgs = append(cfgs, fmt.Sprintf("guard-flip sweep: %d comparisons negated one at a time, %d reported by an obligation, %d variants did not compile, %d not reported (listed in coverage.guard_flip_sweep)", sw.Sites, sw.Detected, sw.NoCompile, len(sw.Undetected)))
@@ -298,4 +314,76 @@ func cmdControls(args []string) int {
 		return 1
 	}
 	return 0
+}
+
+// runRefactorings re-runs the property's rules on each stored behaviour-preserving refactoring written for this property
+// (verif/refactors/<prop>-r*/patch.diff, applied in memory); every one must be silent. Measures the checker, not the tree.
+func runRefactorings(prop string, cf commonFlags, par int) []ControlResult {
+	dirs, _ := filepath.Glob(filepath.Join(cf.verif, "refactors", prop+"-r*"))
+	if len(dirs) == 0 {
+		return nil
+	}
+	sort.Strings(dirs)
+	self, _ := os.Executable()
+	res := make([]ControlResult, len(dirs))
+	sem := make(chan struct{}, par)
+	var wg sync.WaitGroup
+	for i, d := range dirs {
+		wg.Add(1)
+		go func(i int, d string) {
+			defer wg.Done()
+			sem <- struct{}{}
+			defer func() { <-sem }()
+			r := ControlResult{Name: filepath.Base(d)}
+			defer func() { res[i] = r }()
+			pb, err := os.ReadFile(filepath.Join(d, "patch.diff"))
+			if err != nil {
+				r.Status, r.Detail = "error", err.Error()
+				return
+			}
+			files, err := applyUnifiedDiff(cf.root, string(pb))
+			if err != nil {
+				r.Status, r.Detail = "inapplicable", err.Error()
+				return
+			}
+			tmp, err := os.MkdirTemp("", "kvet-rf-")
+			if err != nil {
+				r.Status, r.Detail = "error", err.Error()
+				return
+			}
+			defer os.RemoveAll(tmp)
+			repl := map[string]string{}
+			n := 0
+			for abs, content := range files {
+				f := filepath.Join(tmp, fmt.Sprintf("f%d.go", n))
+				n++
+				os.WriteFile(f, content, 0o644)
+				repl[abs] = f
+			}
+			ob, _ := json.Marshal(map[string]interface{}{"Replace": repl})
+			ov := filepath.Join(tmp, "overlay.json")
+			os.WriteFile(ov, ob, 0o644)
+			out, err := exec.Command(self, "check", "-prop", prop, "-tier", "quick", "-overlay", ov, "-no-evidence", "-root", cf.root, "-verif", cf.verif).CombinedOutput()
+			code := 0
+			if ee, ok := err.(*exec.ExitError); ok {
+				code = ee.ExitCode()
+			} else if err != nil {
+				r.Status, r.Detail = "error", err.Error()
+				return
+			}
+			for _, m := range violLine.FindAllStringSubmatch(string(out), -1) {
+				r.Keys = append(r.Keys, m[2])
+			}
+			switch code {
+			case 0:
+				r.Status = "silent-ok"
+			case 2:
+				r.Status, r.Detail = "error", "refactored tree does not load: "+clip(string(out), 300)
+			default:
+				r.Status, r.Detail = "silent-alarm", "a behaviour-preserving refactoring raised: "+strings.Join(r.Keys, "; ")
+			}
+		}(i, d)
+	}
+	wg.Wait()
+	return res
 }
